@@ -139,12 +139,15 @@ BorrowRulesOK ==
 (* counter that hashes / compares on the id only (Send, not Sync, and Hash + Eq).  An   *)
 (* element kind is used as the VALUE type or as the KEY type, where it can be one:      *)
 (* Cell is not Hash, so the Send-but-not-Sync key is "cellkey"; Rc<u64> is Hash + Eq.   *)
-Kinds   == {"plain", "cell", "rc", "cellkey"}
+(* "guard" is a value that is Sync but NOT Send (a MutexGuard, a thread-bound handle):  *)
+(* it tells the mutable iterators (which hand out &mut V, so that safe code can move a  *)
+(* V out with mem::replace: sending them sends V) from the shared ones.                 *)
+Kinds   == {"plain", "cell", "rc", "cellkey", "guard"}
 Markers == {"Send", "Sync"}
 IsSend(k) == k \in {"plain", "cell", "cellkey"}
-IsSync(k) == k = "plain"
+IsSync(k) == k \in {"plain", "guard"}
 
-Elems == { [pos |-> "value", elem |-> k] : k \in {"plain", "cell", "rc"} }
+Elems == { [pos |-> "value", elem |-> k] : k \in {"plain", "cell", "rc", "guard"} }
          \cup { [pos |-> "key", elem |-> k] : k \in {"rc", "cellkey"} }
 KeyKind(e) == IF e.pos = "key" THEN e.elem ELSE "plain"
 ValKind(e) == IF e.pos = "value" THEN e.elem ELSE "plain"
@@ -182,6 +185,8 @@ MarkerRulesOK ==
         /\ e.elem = "plain" => MarkerVerdict(t.class, mk, e) = "accept"
         /\ (e.elem = "cell" /\ mk = "Sync") => MarkerVerdict(t.class, mk, e) = "reject"
         /\ (e.elem = "cell" /\ t.class = "iter_shared") => MarkerVerdict(t.class, mk, e) = "reject"
+        \* a Sync-but-not-Send VALUE: neither a cache (owns V) nor a mutable iterator (hands out &mut V) may be sent
+        /\ (e.elem = "guard" /\ mk = "Send" /\ t.class \in {"cache", "iter_mut"}) => MarkerVerdict(t.class, mk, e) = "reject"
         \* a Send-but-not-Sync KEY: a cache may be sent but not shared; every iterator hands out &K
         /\ e.elem = "cellkey" =>
               MarkerVerdict(t.class, mk, e) = (IF t.class = "cache" /\ mk = "Send" THEN "accept" ELSE "reject")
